@@ -8,7 +8,7 @@ from props import C03
 RULE = ("constrained schemas as in C03 with 2-4 constraints (subtype and elimination, sharing variables) applied to argument sequences; through the "
         "TRANSFORGE_VERIF hook every *global priority order* of the constraints (all permutations for <= 4 constraints) is imposed at every re-check point, "
         "plus sampled schedules that pick a fresh random order at each re-check point; canonical outcomes (success or failure kind, result type, residual "
-        "bounds, residual constraints as a set) are compared across schedules; the creation-order schedule is also compared with the model; "
+        "bounds, residual constraints as a set) are compared across schedules; every priority schedule is also compared with the scheduled model; a hand-over family (variables with base-type bounds identified with each other while constraints that mention them are pending); "
         "non-trivial = at least two constraints were pending at some re-check point; distinct by (language, schema, arguments)")
 ASSUMPTIONS = ["a schedule is a choice of iteration order at each re-check point (what a Python set could produce)",
                "divergence only between TypingError subclasses when every schedule fails is known finding D14"]
@@ -74,7 +74,53 @@ def run(ctx):
             s = gen_schema_many(rng, spec)
             args = I.gen_args(rng, spec, s, p_valid=0.85)
             one_case(ctx, li, spec, ops, s, args)
+    handover_family(ctx)
     corpus(ctx)
+
+
+def handover_family(ctx):
+    """variables that carry a base-type bound and are then identified with each other while constraints that mention them are pending:
+    k << [b1], j << [b2], R(v, k) << [R(P1, j), R(P2, k)], R(w, b3) << [R(P1, k), R(P2, b4)] over a three-level chain and unrelated types,
+    applied to P1 / P2 - every re-check order of the four constraints"""
+    rng = ctx.rng
+    decls = list(G.BUILTIN_DECLS) + [("V", [], None), ("Q", [], 5), ("O", [], 6), ("X", [], None), ("Y", [], None), ("R", [True, True], None)]
+    spec = G.LangSpec(decls)
+    ops = spec.build()
+    ctx.setup(spec.sexp(), "ok T")
+    chain = [(5, ()), (6, ()), (7, ())]
+    P = [(8, ()), (9, ())]
+    k, j, v, w = ('v', 0), ('v', 1), ('v', 2), ('v', 3)
+
+    def R(a, b):
+        return (10, (a, b))
+    for n in range(24 if ctx.tier == "quick" else 150):
+        b1, b2, b3, b4 = (rng.choice(chain) for _ in range(4))
+        if rng.random() < 0.6:
+            # the second variable's bound strictly tighter than the first one's; the output constraint anchored at the first bound
+            i1 = rng.randrange(0, 2); b1 = chain[i1]; b2 = chain[rng.randrange(i1 + 1, 3)]; b3 = b1; b4 = chain[rng.randrange(0, i1 + 1)]
+        p1, p2 = rng.sample(P, 2)
+        second = [j, k, rng.choice(chain)]
+        key_alts = [R(p1, rng.choice([j, j, j, k])), R(p2, rng.choice([k, k, k, j]))]
+        out_alts = [R(p1, rng.choice([k, k, k, j])), R(p2, rng.choice([b4, b4, b4, j]))]
+        if n < 2:
+            # (the shape with which a seeded change was first missed: Val > Qlt > Ord, k << Qlt, j << Ord)
+            b1, b2, b3, b4 = chain[1], chain[2], chain[1], chain[0]
+            key_alts = [R(p1, j), R(p2, k)]; out_alts = [R(p1, k), R(p2, b4)]
+        elif rng.random() < 0.3:
+            key_alts.append(R(rng.choice(P), rng.choice(second)))
+        if n >= 2:
+            rng.shuffle(key_alts); rng.shuffle(out_alts)
+        bound = lambda x, b: ('elim', x, [b]) if n < 2 or rng.random() < 0.7 else ('sub', x, b, False)
+        cs = [bound(k, b1), bound(j, b2), ('elim', R(v, k), key_alts), ('elim', R(w, b3), out_alts)]
+        if n >= 2 and rng.random() < 0.3:
+            rng.shuffle(cs)
+        body = (G.FUN, (v, w)) if n < 2 or rng.random() < 0.7 else (G.FUN, (v, (G.FUN, (k, w))))
+        s = {"nvars": 4, "nwild": 0, "body": body, "constraints": cs}
+        args = [(0, p1 if n < 2 else rng.choice(P))]
+        if body[1][1] != w and rng.random() < 0.7:
+            args.append((0, rng.choice(chain)))
+        ctx.count("handover_cases")
+        one_case(ctx, "handover", spec, ops, s, args)
 
 
 def gen_schema_many(rng, spec):
@@ -109,12 +155,14 @@ def one_case(ctx, li, spec, ops, s, args):
     for k in range(4 if ctx.tier == "quick" else 12):
         scheds.append((f"random {k}", Sched("random", seed=ctx.seed * 1000 + k)))
     outs = {"creation": obs0}
+    model_lines = [I.infer_line(s, args)]
     for name, sc in scheds:
         obs, res, err = run_with(s, args, spec, ops, sc)
         outs[name] = obs
         if sc.mode == "priority":
             # the same schedule on the model (the engine with the re-check order as a parameter)
-            ctx.case("(infersched (" + " ".join(str(x) for x in sc.perm) + ") " + I.schema_sexp(s) + "".join(" " + I.arg_sexp(a) for a in args) + ")", obs,
+            model_lines.append("(infersched (" + " ".join(str(x) for x in sc.perm) + ") " + I.schema_sexp(s) + "".join(" " + I.arg_sexp(a) for a in args) + ")")
+            ctx.case(model_lines[-1], obs,
                 {"lang": spec.to_json(), "schema": I.schema_src(s, spec), "args": [I.term_sexp(a[1]) for a in args], "priority": list(sc.perm)},
                 nontrivial=True, key=(li, I.schema_sexp(s), tuple(I.arg_sexp(a) for a in args), sc.perm))
         else:
@@ -143,7 +191,7 @@ def one_case(ctx, li, spec, ops, s, args):
         ctx.fail(f"{I.schema_src(s, spec)} applied to {[I.term_sexp(a[1]) for a in args]}: outcome depends on the re-check order ({div}): "
                  + "; ".join(sorted(f"{k}: {v.split(' | ')[-1]}" for k, v in list(outs.items())[:6])),
             {"check": "schedule-divergence", "divergence": div, "alts_mention_variables": alts_mention_vars(s), "selfref_alt": selfref_alt(s)},
-            {"lang": spec.to_json(), "schema": s, "args": args, "outcomes": {k: v.split(" | ")[-1] for k, v in outs.items()}})
+            {"lang": spec.to_json(), "schema": s, "args": args, "outcomes": {k: v.split(" | ")[-1] for k, v in outs.items()}}, lines=model_lines)
 
 
 def alts_mention_vars(s):
